@@ -29,8 +29,12 @@ MANIFEST = dict(
           "formatters, XML-tree and callable formatters, list/tuple/None attribute values; _populate_class_variables on the live and on "
           "synthetic html5 tables; eight PYTHONHASHSEED values."),
     design="7/C09",
-    note=("RECORDED, not verified: CPython's html.parser tokenizer and html.unescape — the two reader models are compared with the real "
-          "parser on every generated case. Text is read back inside <pre> (bs4 collapses whitespace-only strings elsewhere — builder "
+    note=("The text reader is PROVED equal to the tokenizer code-mirror (Model/Tokenizer.lean, tied to CPython by ./check TK) composed with "
+          "bs4's handlers on every text the three substitutions write (reader_text_is_tokenizer_on_substituted), the attribute reader "
+          "to the tokenizer's attrValue given P.unescape = the model of html.unescape (reader_attr_is_tokenizer; the model is compared with "
+          "the real html.unescape on every written value); the round trips are re-stated through Tokenizer.run (*_tokenized). Still "
+          "RECORDED: html.unescape itself, and the reader on texts no substitution writes (numeric references, `&#` bail) — both reader "
+          "models are also compared with the real parser on every generated case. Text is read back inside <pre> (bs4 collapses whitespace-only strings elsewhere — builder "
           "policy). Decimal references of more than 4300 digits (C06) are not generated. The name round trip of the tables "
           "(HTML_ENTITY_TO_CHARACTER[CHARACTER_TO_HTML_ENTITY[k]] = k) is a decided fact of the live tables, not a consequence of the "
           "construction. The exact set of strings the OLD substitute_html5 round-trips is not characterised (sufficient condition + "
@@ -40,7 +44,7 @@ MANIFEST = dict(
 
 ALPHABET = "&<>\"';#x1alt"
 RUNAWAY = 0x110000
-NAMES = "xml xmlce html html5 html5raw quote html5old rt_xml q_xml ra_xml rt_html q_html ra_html rt_html5 q_html5 ra_html5 rt_raw ra_raw".split()
+NAMES = "xml xmlce html html5 html5raw quote html5old rt_xml q_xml ra_xml rt_html q_html ra_html rt_html5 q_html5 ra_html5 rt_raw ra_raw un_xml un_html un_html5".split()
 KF_LEGACY = "C09-html5-bare-legacy-ref"
 KF_NUMERIC = "C09-html5-bare-numeric-ref"
 KF_SEMI = "C09-html5-unknown-ref-semicolon-dropped"
@@ -219,6 +223,9 @@ def real_case(s):
         out.append("skip")
         _, a = pb("", quote)
     out.append(show(a))
+    # P.unescape of the tokenizer theorems = the real html.unescape, on the bodies actually written between the quotes
+    for o in (xml, html, html5):
+        out.append(tok(_html.unescape(E.quoted_attribute_value(o)[1:-1])))
     if not (len(quote) >= 2 and quote[0] == quote[-1] and quote[0] in "\"'" and quote[0] not in quote[1:-1]):
         fails.append(dict(what="quoted_attribute_value(s) is not a well-formed quoted value", kind="quote", kf=None, observed=tok(quote)))
     # input distribution
